@@ -127,6 +127,19 @@ pub fn leaf_cert_valid(key: &SigningKey, root_key: &SigningKey, issuer: &str, su
     Some(finish(b, root_key))
 }
 
+/// A leaf that is conformant except for the key identifiers given (subject / authority key identifier octets as supplied)
+pub fn leaf_cert_with_ids(key: &SigningKey, root_key: &SigningKey, issuer: &str, subject: &str, eku: &str, serial: u64, ski: Option<Vec<u8>>, aki: Option<Vec<u8>>) -> Option<Certificate> {
+    let spki = SubjectPublicKeyInfoOwned::from_key(*key.verifying_key()).ok()?;
+    let mut b = CertificateBuilder::new(Profile::Manual { issuer: Some(issuer.parse().ok()?) }, serial.into(), Validity::from_now(Duration::from_secs(86400)).ok()?, subject.parse().ok()?, spki, root_key).ok()?;
+    if let Some(s) = ski { b.add_extension(&SubjectKeyIdentifier(OctetString::new(s).ok()?)).ok()?; }
+    if let Some(a) = aki { b.add_extension(&AuthorityKeyIdentifier { key_identifier: Some(OctetString::new(a).ok()?), ..Default::default() }).ok()?; }
+    b.add_extension(&KeyUsage(KeyUsages::DigitalSignature.into())).ok()?;
+    b.add_extension(&ian()).ok()?;
+    b.add_extension(&crl_dp()).ok()?;
+    b.add_extension(&ExtendedKeyUsage(vec![ObjectIdentifier::new_unwrap(eku)])).ok()?;
+    Some(finish(b, root_key))
+}
+
 /// A conformant leaf whose OWN key is on P-384 (issued by a P-256 root)
 pub fn leaf_cert_p384(key: &p384::ecdsa::SigningKey, root_key: &SigningKey, issuer: &str, subject: &str, eku: &str, serial: u64) -> Option<Certificate> {
     let spki = SubjectPublicKeyInfoOwned::from_key(*key.verifying_key()).ok()?;
